@@ -34,7 +34,7 @@ theorem inv_step (i : Inst) (hw : WF i) (s : State) (a : Nat) (hi : Inv i s) (ha
   have hcur : (env.step i s a).base.cur = a := rfl
   have ht : (env.step i s a).time =
       (if a ≠ 0 then max (s.time + i.base.D s.base.cur a) (i.twS a) + i.dur a else 0) := by
-    simp only [env, step, refresh, hi.2.2 a]
+    rw [step_time, hi.2.2 a]
   refine ⟨fun h => ?_, fun h => ?_, cache_refresh i _ _⟩
   · rw [hcur] at h; rw [ht]; simp [h]
   · rw [hcur] at h ⊢
